@@ -6,7 +6,9 @@ from .common import enc_str, enc_opt
 from .tmpl import esc_text
 
 IDENTS = ["Name", "Upper", "Lower", "Trim", "T", "a1", "_x", "Count", "Zz_9"]
-KWNAMES = ["left", "right", "width", "x", "flag", "ignore_case", "truex", "True_", "_"]
+KWNAMES = ["left", "right", "width", "x", "flag", "ignore_case", "truex", "True_", "_",
+           # identifiers that merely look like the boolean words (only `true/True/false/False` are values)
+           "TRUE", "FALSE", "tRue", "fALSE", "TrUe", "falsE", "Truee", "fals"]
 CATS = [None, None, "Core", "text", "C_1"]
 TEXT_POOL = list("abc XYZ09.,-_()=;:!?'\"\\{}|éЖ中 ")
 
